@@ -1,1 +1,328 @@
-(* placeholder; being written *)
+(** C11 — Boosted rewards: per-week formula, single payment, bounded by the week's pool.
+    Statements only; proofs are in Proofs/BoostedProofs.v (on top of Proofs/WeeklyProofs.v).
+
+    Vocabulary (Model/Boosted.v, Proofs/BoostedProofs.v):
+      [step s op = Ok (s', out)]   a successful operation of the farm as far as the boosted-yields module is
+            concerned; [o_b out] the boosted payout, [o_det out] its per-week breakdown [(week, payments)],
+            [o_cut out] what take_reward_slice moved into the running week's pool, [o_swept out] the
+            [(week, amount)] pairs collectUndistributedBoostedRewards took;
+      [claim_of op = Some (u, cur, pos)]  the operation settles user [u]'s boosted rewards (enter, claim, compound,
+            exit, merge, claimBoostedRewards) with energy entry [cur] and total farm position [pos] — the position
+            BEFORE the operation's own position update;
+      [view_acc], [view_rem], [view_sup], [view_und], [view_lastcol], [view_total_rewards], [view_total_energy],
+      [view_progress], [view_factors]   the contract's views;
+      [energy_at p w]   the recorded claim-progress entry [p] decayed to week [w];
+      [bcur_week s]     the current week;  [claim_range p cw] = weeks max(p.week, cw-4) .. cw-1;
+      [bgrun] = [run] with a ghost ledger [g]: [gcuts g w] the cuts taken in week [w], [gpaid g w] the boosted
+            payments made for week [w], [gswept g w] what was swept from it, [g_tcuts/g_tpaid/g_tswept] the totals,
+            [g_fac g] the accepted setBoostedYieldsFactors calls (first factors, later [(week, factors)]);
+      [fac_at f0 log w]  the documented "factors of week w": those of the last accepted call made in a week <= w
+            (the first call's for earlier weeks);
+      [BInv s g]        the invariant of reachable states ([C11_reach]). *)
+From MX Require Import Base.Prelude Gen.Params Model.Weekly Model.Boosted Proofs.WeeklyProofs Proofs.BoostedProofs.
+
+(** every reachable state (any deployment epoch, any interleaving; failed transactions revert) satisfies the invariant *)
+Theorem C11_reach : forall epoch ops,
+  BInv (fst (bgrun (init_b epoch, bg0) ops)) (snd (bgrun (init_b epoch, bg0) ops)).
+Proof. exact reach_inv. Qed.
+Print Assumptions C11_reach.
+
+Theorem C11_ledger_is_the_run : forall ops s g, fst (bgrun (s, g) ops) = run s ops.
+Proof. exact bgrun_fst. Qed.
+Print Assumptions C11_ledger_is_the_run.
+
+(** ------------------------------------------------------------------ 1. the per-week formula *)
+(** Formula: a settlement of user [u] processes exactly the weeks of his claim window (nothing without a config, without
+    recorded progress, or when the progress is already at the current week); for each processed week [w] the
+    payment [r] is, in terms of the VIEWS of the state before the operation —
+      e = his recorded energy decayed to w, E = total energy of w, F = farm supply of w, f = [pos],
+      factors = what get_factors_for_week yields for w, R = the week's pool as frozen by its first claim
+      (= accumulated(w) if this is the first claim) —
+    nothing if E = 0, F = 0, e < min energy, f < min position or R = 0, and otherwise
+      min (maxF*R*f/F) ((R*cE*e/E + R*cF*f/F)/(cE+cF))   (floor divisions), paid iff positive.
+    (cE + cF = 0 with all thresholds met makes the operation fail: division by zero.) *)
+Theorem C11_formula : forall s g op s' out u cur pos,
+  BInv s g -> step s op = Ok (s', out) -> claim_of op = Some (u, cur, pos) ->
+  (o_det out = [] /\ (bh_cfg (b_h s) = None \/ view_progress s u = None \/
+                      exists p, view_progress s u = Some p /\ pr_week p = bcur_week s)) \/
+  (exists p c cfg,
+     view_progress s u = Some p /\ bh_cfg (b_h s) = Some c /\ cfg_update c (bcur_week s) None = Ok cfg /\
+     map fst (o_det out) = claim_range p (bcur_week s) /\
+     forall w r, In (w, r) (o_det out) ->
+       pr_week p <= w /\ bcur_week s - USER_MAX_CLAIM_WEEKS <= w < bcur_week s /\
+       let e := energy_at p w in let E := view_total_energy s w in let F := view_sup s w in
+       (((E = 0 \/ F = 0) /\ r = []) \/
+        (exists fa, E <> 0 /\ F <> 0 /\ get_factors_for_week cfg w = Ok fa /\
+           (((e < fa_mine fa \/ pos < fa_minf fa) /\ r = []) \/
+            (fa_mine fa <= e /\ fa_minf fa <= pos /\
+             exists R, view_total_rewards s' w = [(RTOK, R)] /\
+               (view_total_rewards s w = [] -> R = view_acc s w) /\
+               (view_total_rewards s w <> [] -> view_total_rewards s w = [(RTOK, R)]) /\
+               ((R = 0 /\ r = []) \/
+                (R <> 0 /\ fa_ce fa + fa_cf fa <> 0 /\
+                 let x := Z.min (fa_max fa * R * pos / F)
+                                ((R * fa_ce fa * e / E + R * fa_cf fa * pos / F) / (fa_ce fa + fa_cf fa)) in
+                 ((x <= 0 /\ r = []) \/ (0 < x /\ r = [(RTOK, x)]))))))))).
+Proof. exact step_formula. Qed.
+Print Assumptions C11_formula.
+
+(** ... and the amount against the documented RATIONAL value  min(maxF*R*f/F, R*(cE*e/E + cF*f/F)/(cE+cF)),
+    cross-multiplied: it is built from the four floors, never exceeds either bound, and is less than 1 below
+    the cap or less than 1 + 2/(cE+cF) below the share. *)
+Theorem C11_formula_bounds : forall fa R f F e E,
+  0 < F -> 0 < E -> 0 < fa_ce fa + fa_cf fa -> 0 <= fa_ce fa -> 0 <= fa_cf fa -> 0 <= fa_max fa ->
+  0 <= R -> 0 <= f -> 0 <= e ->
+  let x := Z.min (fa_max fa * R * f / F)
+                 ((R * fa_ce fa * e / E + R * fa_cf fa * f / F) / (fa_ce fa + fa_cf fa)) in
+  exists a be bt b,
+    x = Z.min a b /\
+    floor_of a (fa_max fa * R * f) F /\ floor_of be (R * fa_ce fa * e) E /\ floor_of bt (R * fa_cf fa * f) F /\
+    floor_of b (be + bt) (fa_ce fa + fa_cf fa) /\
+    0 <= x /\
+    x * F <= fa_max fa * R * f /\
+    x * ((fa_ce fa + fa_cf fa) * E * F) <= R * (fa_ce fa * e * F + fa_cf fa * f * E) /\
+    (fa_max fa * R * f < (x + 1) * F \/
+     R * (fa_ce fa * e * F + fa_cf fa * f * E) < ((x + 1) * (fa_ce fa + fa_cf fa) + 2) * (E * F)).
+Proof. exact boosted_amount_char. Qed.
+Print Assumptions C11_formula_bounds.
+
+(** the claim window lies in the last USER_MAX_CLAIM_WEEKS completed weeks, from the recorded progress week on *)
+Theorem C11_window : forall p cw w, pr_week p <= cw -> In w (claim_range p cw) ->
+  cw - USER_MAX_CLAIM_WEEKS <= w < cw /\ pr_week p <= w.
+Proof. exact claim_range_window. Qed.
+Print Assumptions C11_window.
+
+(** ------------------------------------------------------------------ 2. at most once *)
+(** Once: over any history from any deployment, the (user, week) pairs processed by successful settlements are
+    pairwise distinct — claim progress only moves forward. *)
+Theorem C11_once : forall epoch ops, NoDup (brun_log (init_b epoch) ops).
+Proof. intros. apply (brun_log_once ops _ _ (BInv_init epoch)). Qed.
+Print Assumptions C11_once.
+
+Theorem C11_once_progress : forall s g op s' out,
+  BInv s g -> step s op = Ok (s', out) ->
+  (forall u, bclaimable_from s u <= bclaimable_from s' u) /\
+  (forall u w, In (u, w) (bevents op out) -> bclaimable_from s u <= w < bclaimable_from s' u) /\
+  NoDup (bevents op out).
+Proof. exact step_claimable. Qed.
+Print Assumptions C11_once_progress.
+
+(** ------------------------------------------------------------------ 3. the week's pool *)
+(** Pool: in every reachable state, for every week: all amounts are non-negative; the cuts taken in the week are
+    exactly accounted for by accumulated + remaining + paid + swept; what was paid never exceeds what was cut;
+    once the total is frozen it IS the week's cuts, accumulated is empty, the week is over, and
+    remaining = R - paid (- swept); while a claimable week is not frozen nothing is remaining, paid or swept. *)
+Theorem C11_pool : forall epoch ops w,
+  let s := fst (bgrun (init_b epoch, bg0) ops) in let g := snd (bgrun (init_b epoch, bg0) ops) in
+  0 <= view_acc s w /\ 0 <= view_rem s w /\ 0 <= gpaid g w /\ 0 <= gswept g w /\
+  gcuts g w = view_acc s w + view_rem s w + gpaid g w + gswept g w /\
+  gpaid g w <= gcuts g w /\
+  (view_total_rewards s w <> [] ->
+     view_total_rewards s w = [(RTOK, gcuts g w)] /\ view_acc s w = 0 /\ w < bcur_week s /\
+     view_rem s w = gcuts g w - gpaid g w - gswept g w) /\
+  (bcur_week s - USER_MAX_CLAIM_WEEKS <= w -> view_total_rewards s w = [] ->
+     view_rem s w = 0 /\ gpaid g w = 0 /\ gswept g w = 0).
+Proof. exact reach_pool. Qed.
+Print Assumptions C11_pool.
+
+(** Freeze: per operation — a frozen total of a claimable week never changes; a total becomes frozen only by a
+    settlement, only for a completed week of the window, to exactly accumulated(w), which is thereby emptied,
+    and remaining(w) = R_w - what this very operation pays for w; accumulated of any week but the running one
+    never grows (it stays or is emptied). *)
+Theorem C11_freeze : forall s g op s' out,
+  BInv s g -> step s op = Ok (s', out) ->
+  let cw := bcur_week s in
+  forall w,
+    (view_total_rewards s w <> [] -> cw - USER_MAX_CLAIM_WEEKS <= w -> view_total_rewards s' w = view_total_rewards s w) /\
+    (view_total_rewards s w = [] -> view_total_rewards s' w <> [] ->
+       (exists u cur pos, claim_of op = Some (u, cur, pos)) /\ cw - USER_MAX_CLAIM_WEEKS <= w < cw /\
+       view_total_rewards s' w = [(RTOK, view_acc s w)] /\ view_acc s' w = 0 /\
+       view_rem s' w = view_acc s w - wpaid (o_det out) w) /\
+    (w <> cw -> view_acc s' w = view_acc s w \/ view_acc s' w = 0).
+Proof. exact step_rewards. Qed.
+Print Assumptions C11_freeze.
+
+(** Slice: take_reward_slice touches the running week only, with percentage * emission / 10000 — and nothing while
+    the percentage is 0 or no factors are configured. *)
+Theorem C11_slice : forall s g op s' out,
+  BInv s g -> step s op = Ok (s', out) ->
+  0 <= o_cut out /\ o_cut out = match full_of op with Some full => expected_cut s full | None => 0 end.
+Proof. exact step_cut. Qed.
+Print Assumptions C11_slice.
+
+Theorem C11_slice_running_week : forall s g op s' out,
+  BInv s g -> step s op = Ok (s', out) -> (forall n, op <> BAdvance n) ->
+  view_acc s' (bcur_week s) = view_acc s (bcur_week s) + o_cut out /\ view_rem s' (bcur_week s) = 0.
+Proof. exact step_running_week. Qed.
+Print Assumptions C11_slice_running_week.
+
+(** ------------------------------------------------------------------ 4. undistributed rewards *)
+(** Collect: admin only; needs current week > 5; sweeps exactly the weeks (last collected, current-5]: undistributed
+    grows by remaining(w) + accumulated(w) of those weeks, both are emptied, every other week is untouched. *)
+Theorem C11_undistributed : forall s c s' out,
+  ep_collect s c = Ok (s', out) ->
+  let cw := bcur_week s in let first := view_lastcol s + 1 in let last := cw - (USER_MAX_CLAIM_WEEKS + 1) in
+  c = ADMIN /\ USER_MAX_CLAIM_WEEKS + 1 < cw /\ b_first s <= b_epoch s /\
+  b_w s' = b_w s /\ b_first s' = b_first s /\ b_epoch s' = b_epoch s /\
+  bh_sup (b_h s') = bh_sup (b_h s) /\ bh_pct (b_h s') = bh_pct (b_h s) /\ bh_cfg (b_h s') = bh_cfg (b_h s) /\
+  o_b out = 0 /\ o_det out = [] /\ o_cut out = 0 /\
+  ((last < first /\ s' = s /\ o_swept out = []) \/
+   (first <= last /\ view_lastcol s' = last /\
+    o_swept out = map (fun w => (w, view_rem s w + view_acc s w)) (zseq first (Z.to_nat (last - first + 1))) /\
+    view_und s' = view_und s + total (o_swept out) /\
+    (forall w, first <= w <= last -> view_acc s' w = 0 /\ view_rem s' w = 0) /\
+    (forall w, ~ (first <= w <= last) -> view_acc s' w = view_acc s w /\ view_rem s' w = view_rem s w))).
+Proof. exact collect_char. Qed.
+Print Assumptions C11_undistributed.
+
+Theorem C11_undistributed_second_adds_nothing : forall s c s' out,
+  ep_collect s c = Ok (s', out) -> ep_collect s' c = Ok (s', out0).
+Proof. exact collect_idem. Qed.
+Print Assumptions C11_undistributed_second_adds_nothing.
+
+Theorem C11_undistributed_admin_only : forall s c, c <> ADMIN -> ep_collect s c = Err EPerm.
+Proof. exact collect_perm. Qed.
+Print Assumptions C11_undistributed_admin_only.
+
+(** ... along every history each week is swept at most once, only by a collect, and never a week inside the
+    claim window; no other operation moves undistributed. *)
+Theorem C11_undistributed_once : forall epoch ops, NoDup (bsweep_log (init_b epoch) ops).
+Proof. intros. apply (bsweep_log_once ops _ _ (BInv_init epoch)). Qed.
+Print Assumptions C11_undistributed_once.
+
+Theorem C11_undistributed_outside_window : forall s g op s' out,
+  BInv s g -> step s op = Ok (s', out) ->
+  view_lastcol s <= view_lastcol s' /\
+  (forall w, In w (map fst (o_swept out)) ->
+     view_lastcol s < w <= view_lastcol s' /\ w <= bcur_week s - USER_MAX_CLAIM_WEEKS - 1 /\ exists c, op = BCollect c) /\
+  NoDup (map fst (o_swept out)).
+Proof. exact step_sweeps. Qed.
+Print Assumptions C11_undistributed_outside_window.
+
+(** Leftover: undistributed is exactly everything swept so far; of a collected week nothing stays behind and what was
+    swept is the whole leftover cuts - paid (the never-claimed pool or the unclaimed remainder) ... *)
+Theorem C11_leftover_collected : forall epoch ops w,
+  let s := fst (bgrun (init_b epoch, bg0) ops) in let g := snd (bgrun (init_b epoch, bg0) ops) in
+  view_und s = g_tswept g /\ 0 <= view_und s /\
+  (1 <= w <= view_lastcol s ->
+     view_acc s w = 0 /\ view_rem s w = 0 /\ gswept g w = gcuts g w - gpaid g w /\
+     w <= bcur_week s - USER_MAX_CLAIM_WEEKS - 1) /\
+  (gswept g w <> 0 -> 1 <= w <= view_lastcol s).
+Proof. exact reach_leftover. Qed.
+Print Assumptions C11_leftover_collected.
+
+(** ... and every week that left the window IS collectable: the admin's collect cannot fail and covers it. *)
+Theorem C11_leftover_collectable : forall epoch ops w,
+  let s := fst (bgrun (init_b epoch, bg0) ops) in
+  1 <= w <= bcur_week s - USER_MAX_CLAIM_WEEKS - 1 ->
+  exists s' out, step s (BCollect ADMIN) = Ok (s', out) /\ w <= view_lastcol s' /\
+                 (view_lastcol s < w -> In w (map fst (o_swept out))).
+Proof. exact reach_collectable. Qed.
+Print Assumptions C11_leftover_collectable.
+
+(** ------------------------------------------------------------------ 5. the factors of a week *)
+(** Register: after creation and any sequence of touches / accepted settings (weeks non-decreasing, otherwise the
+    update itself fails), the 5-slot register answers for each of the last 4 completed weeks exactly the abstract
+    map: the factors that were the latest ones when that week ended. *)
+Theorem C11_factors : forall cw0 f0 ops c log w,
+  cfg_run (cfg_new cw0 f0) [] ops = Ok (c, log) ->
+  c_last c - NSLOTS < w < c_last c ->
+  get_factors_for_week c w = Ok (fac_at f0 log w) /\ last_slot c = fac_at f0 log (c_last c).
+Proof. exact register_refines. Qed.
+Print Assumptions C11_factors.
+
+(** ... in every reachable state of the farm: the stored register (brought to the current week, as every claim does)
+    yields for week w the factors of the last accepted setBoostedYieldsFactors call of a week <= w, on exactly the
+    weeks current-5 < w < current; the view shows the latest ones. *)
+Theorem C11_factors_reach : forall epoch ops,
+  let s := fst (bgrun (init_b epoch, bg0) ops) in let g := snd (bgrun (init_b epoch, bg0) ops) in
+  let cw := bcur_week s in
+  match bh_cfg (b_h s), g_fac g with
+  | None, None => True
+  | Some c, Some (f0, log) =>
+      c_last c <= cw /\ Forall (fun ev => fst ev <= cw) log /\
+      view_factors s = Some (fac_at f0 log cw) /\
+      exists cfg, cfg_update c cw None = Ok cfg /\
+        forall w, (cw - NSLOTS < w < cw -> get_factors_for_week cfg w = Ok (fac_at f0 log w)) /\
+                  (forall fa, get_factors_for_week cfg w = Ok fa -> cw - NSLOTS < w < cw /\ fa = fac_at f0 log w)
+  | _, _ => False
+  end.
+Proof. exact reach_factors. Qed.
+Print Assumptions C11_factors_reach.
+
+(** ... where the ghost log is nothing but the successful setBoostedYieldsFactors calls, in order, with their weeks *)
+Theorem C11_factors_log : forall ops s g,
+  match g_fac (snd (bgrun (s, g) ops)), g_fac g with
+  | Some (f0, log), Some (f0', log') => f0 = f0' /\ log = log' ++ fac_calls s ops
+  | Some (f0, log), None => exists cw0 rest, fac_calls s ops = (cw0, f0) :: rest /\ log = rest
+  | None, None => fac_calls s ops = []
+  | None, Some _ => False
+  end.
+Proof. exact fac_log_is_calls. Qed.
+Print Assumptions C11_factors_log.
+
+(** Guard: setBoostedYieldsFactors succeeds exactly for the admin with both minimums positive (all arguments BigUints);
+    in particular cE + cF = 0 and maxF = 0 are accepted. *)
+Theorem C11_factors_guard : forall s g c f,
+  BInv s g ->
+  ((exists s' out, ep_set_factors s c f = Ok (s', out)) <->
+   (c = ADMIN /\ 0 <= fa_max f /\ 0 <= fa_ce f /\ 0 <= fa_cf f /\ 0 < fa_mine f /\ 0 < fa_minf f)).
+Proof. exact set_factors_guard. Qed.
+Print Assumptions C11_factors_guard.
+
+(** ------------------------------------------------------------------ 6. conservation *)
+(** Conservation: in every reachable state  sum_w accumulated + sum_w remaining + undistributed + all boosted payments
+    = all cuts taken by take_reward_slice  (the storage maps have unique keys, so [asum] is the sum over weeks). *)
+Theorem C11_conservation : forall epoch ops,
+  let s := fst (bgrun (init_b epoch, bg0) ops) in let g := snd (bgrun (init_b epoch, bg0) ops) in
+  asum (bh_acc (b_h s)) + asum (bh_rem (b_h s)) + view_und s + g_tpaid g = g_tcuts g /\
+  view_und s = g_tswept g /\ NoDup (akeys (bh_acc (b_h s))) /\ NoDup (akeys (bh_rem (b_h s))).
+Proof. exact reach_conservation. Qed.
+Print Assumptions C11_conservation.
+
+(** ... the ghost totals being the sums of what the successful operations handed out *)
+Theorem C11_conservation_totals : forall ops s g,
+  let g' := snd (bgrun (s, g) ops) in
+  g_tcuts g' = g_tcuts g + zsum_of o_cut (out_log s ops) /\
+  g_tpaid g' = g_tpaid g + zsum_of o_b (out_log s ops) /\
+  g_tswept g' = g_tswept g + zsum_of (fun o => total (o_swept o)) (out_log s ops).
+Proof. exact ghost_totals. Qed.
+Print Assumptions C11_conservation_totals.
+
+(** Not stated in this file (DESIGN §7 lists it as an extension): [C11_no_underflow] — that the guard
+    [remaining -= reward] never fires.  It needs  sum_u f_u(at claim) <= F_w  and  sum_u e_u <= E_w, facts about the
+    farm's own position bookkeeping ("every position increase first settles with the old position"); in this
+    module-level model the position [pos] and the supply are operation inputs, so the statement belongs to the
+    composition with Model/Farm.v (whose input [b] is this model's [o_b]).  Here the guard is part of the model
+    ([sub_chk]): sum paid <= R holds unconditionally ([C11_pool]); an over-subscribed week makes the operation fail.
+    Likewise a configuration with cE + cF = 0 — accepted by the setter, [C11_factors_guard] — makes every settlement
+    that reaches the formula fail with a division by zero ([div_chk]); [C11_formula] covers successful operations. *)
+
+(** Non-vacuity: percentage 25 %, factors (2,3,2,1,1); two users with different energies enter in week 1 (pool 500);
+    in week 2 the factors change, then both settle week 1 with the OLD factors — 276 = min(333, (1050+333)/5) and
+    223 = min(666, (450+666)/5) — while week 2 accrues 1100 that nobody ever claims; six weeks later a non-admin's
+    collect is refused, the admin's sweeps the remainder 1 of week 1 and the never-frozen 1100 of week 2, and a
+    second collect moves nothing. *)
+Definition c11_example_ops : list bop :=
+  [BSetPct 100 2500 0; BSetFactors 100 (mkFac 2 3 2 1 1);
+   BEnter true 1 (mkEn 7000 5 10) 0 1000 100;
+   BEnter true 2 (mkEn 3000 5 10) 0 1000 300;
+   BAdvance 7;
+   BSetFactors 100 (mkFac 1 1 1 1 1);
+   BClaimBoosted true 1 (mkEn 6930 12 10) 100 4000 300;
+   BClaim true 2 (mkEn 2930 12 10) 200 400 300;
+   BAdvance 42;
+   BCollect 7; BCollect 100; BCollect 100].
+Example C11_nonvacuous :
+  let sg := bgrun (init_b 5, bg0) c11_example_ops in let s := fst sg in let g := snd sg in
+  map o_b (out_log (init_b 5) c11_example_ops) = [0; 0; 0; 0; 0; 0; 276; 223; 0; 0; 0] /\
+  map o_cut (out_log (init_b 5) c11_example_ops) = [0; 0; 250; 250; 0; 0; 1000; 100; 0; 0; 0] /\
+  brun_log (init_b 5) c11_example_ops = [(1, 1); (2, 1)] /\
+  bsweep_log (init_b 5) c11_example_ops = [1; 2; 3] /\
+  view_total_rewards s 1 = [(RTOK, 500)] /\ view_total_rewards s 2 = [] /\
+  gcuts g 1 = 500 /\ gpaid g 1 = 499 /\ gswept g 1 = 1 /\ gcuts g 2 = 1100 /\ gpaid g 2 = 0 /\ gswept g 2 = 1100 /\
+  view_und s = 1101 /\ view_lastcol s = 3 /\ g_tcuts g = 1600 /\ g_tpaid g = 499 /\ g_tswept g = 1101 /\
+  view_acc s 2 = 0 /\ view_rem s 1 = 0 /\
+  g_fac g = Some (mkFac 2 3 2 1 1, [(2, mkFac 1 1 1 1 1)]) /\
+  step s (BCollect 7) = Err EPerm.
+Proof. vm_compute. repeat split. Qed.
